@@ -136,7 +136,10 @@ def one_case(rep, drv, case):
 				return np.array([int(x) for x in l], dtype=case['dtype'])          # integer arrays of a narrow dtype are arrays of numbers like any other
 			return np.array(l) if arr else l
 		return float(Fraction(v))
-	py = py_ww(T, *[topy(args[k], case.get('arr', {}).get(k, False)) for k in ('h', 'K', 'd', 'c')])
+	vals_ = [topy(args[k], case.get('arr', {}).get(k, False)) for k in ('h', 'K', 'd', 'c')]
+	# a zero-dimensional array is a singleton like a Python float (one value for every period)
+	vals_ = [np.array(v_) if k_ in case.get('zerod', ()) and not isinstance(v_, (list, np.ndarray)) else v_ for k_, v_ in zip(('h', 'K', 'd', 'c'), vals_)]
+	py = py_ww(T, *vals_)
 	m = canon_model(drv.call('ww', T=T, **args))
 	return py, m
 
@@ -207,6 +210,12 @@ def run(rep, drv):
 			rep.case('ww-exact', dict(cz, call=j), nontrivial=True); rep.count('ww:call-history')
 			nz = lambda v: [Fraction(x) for x in v] if isinstance(v, list) else [Fraction(v)] * T
 			compare(rep, 'ww-exact', dict(cz, history=calls[:j]), py, m, True, (nz(cz['h']), nz(cz['K']), nz(cz['c']), nz(cz['d'])))
+	# singletons given as zero-dimensional arrays (np.array(500.0)): the same instance as with Python floats
+	for zd in (('K',), ('h',), ('c',), ('K', 'h', 'c')):
+		cz = {'T': 4, 'h': '2', 'K': '500', 'd': ['90', '120', '80', '70'], 'c': '1', 'zerod': list(zd)}
+		py, m = one_case(rep, drv, cz)
+		rep.case('ww-exact', cz, nontrivial=True); rep.count('ww:zero-dimensional-array-singleton')
+		compare(rep, 'ww-exact', cz, py, m, True, ([Fraction(2)] * 4, [Fraction(500)] * 4, [Fraction(1)] * 4, [Fraction(x) for x in cz['d']]))
 	# NumPy integer arrays of narrow dtypes: the costs are numbers, not int16/int32/uint8 registers (sums and products beyond the dtype's range)
 	for dt, cz in (('int16', {'T': 4, 'h': ['2'] * 4, 'K': ['300'] * 4, 'd': ['120', '90', '100', '110'], 'c': ['150', '140', '160', '155']}),
 				   ('int32', {'T': 3, 'h': ['1'] * 3, 'K': ['1000'] * 3, 'd': ['50000', '60000', '40000'], 'c': ['50000', '45000', '52000']}),
